@@ -27,6 +27,33 @@ def describe(r):
     return str(r)[:200]
 
 
+def apalache_unbounded_octaves(run):
+    """An ADDITION to the TLC checks (not a replacement): Apalache discharges LetterAndSound and Inverse of the letter / semitone model
+    for EVERY integer octave (spec/PitchInd.tla, symbolic, length 0), where TLC covers octaves 0..8.  Skipped (and said so in the
+    evidence) when apalache-mc is not available; a counterexample is a machinery failure of the MODEL, never a VIOLATION of kernpy."""
+    import shutil
+    import subprocess
+    import tempfile
+    from ..common import SPEC
+    exe = shutil.which('apalache-mc')
+    if not exe:
+        run.note('apalache_unbounded_octaves', 'skipped: apalache-mc not on PATH')
+        return
+    out = tempfile.mkdtemp(prefix='kernpy_apalache_')
+    try:
+        p = subprocess.run([exe, 'check', '--init=Init', '--next=Next', '--inv=Inv', '--length=0', '--out-dir=' + out, 'PitchInd.tla'],
+                           cwd=SPEC, stdout=subprocess.PIPE, stderr=subprocess.STDOUT, text=True, timeout=600)
+        ok = 'EXITCODE: OK' in p.stdout and 'NoError' in p.stdout
+        if not ok and 'EXITCODE: ERROR (12)' in p.stdout:
+            raise MachineryError('Apalache found a counterexample to the transposition laws of the MODEL (spec/PitchInd.tla)')
+        run.note('apalache_unbounded_octaves', 'LetterAndSound and Inverse hold for every integer octave (Apalache, symbolic)' if ok
+                 else 'not completed: ' + p.stdout[-200:])
+    except subprocess.TimeoutExpired:
+        run.note('apalache_unbounded_octaves', 'not completed: timeout')
+    finally:
+        shutil.rmtree(out, ignore_errors=True)
+
+
 def main():
     a = parse_args()
     run = Run('C09', a.tier, a.seed, assumptions=[
@@ -35,6 +62,7 @@ def main():
                 'plus P4.P5 = octave compositions and the two tables; non-trivial = distinct transposition records whose interval '
                 'is not the unison')
     run.add_tlc(tlc.run_tlc('MC_Pitch', workers=8, timeout=900))
+    apalache_unbounded_octaves(run)
     recs = pitchrec.record_tables() + pitchrec.record_transpose()
     # a pitch OBJECT under a history of setter / chroma / transposition / export calls: every history of length 3 and simulated
     # histories of length 10 (MC_PitchObj), each replayed on one real AgnosticPitch object
